@@ -110,9 +110,9 @@ _A = ["execCall", "execAsyncCall"]
 _E = ["eventCall", "smSend"]
 SRC_TIE = {
     "C07": ["eventCall", "reservedNames", "injectedNames", "bindExpected", "callableMethod", "engBase"],
-    "C16": ["engBase"],
+    "C16": ["engBase", "factory"],
     "C13": _E + ["allowedEvents", "decl"],
-    "C15": ["decl"],
+    "C15": ["decl", "factory"],
     "C18": ["diagram"],
     "C10": ["store", "smInit"],
     "C12": ["smInit", "registerCallbacks", "addListener", "registry"],
@@ -132,8 +132,8 @@ TIE_MOD = "SMV.Src.Tie"
 TIE_MODS = ["SMV.Src.Tie", "SMV.Src.TieExpr"]
 # further tie modules, built and audited only for the properties whose index names their theorems
 TIE_EXTRA = {"C07": ["SMV.Src.TieBind", "SMV.Src.TieEng"], "C03": ["SMV.Src.TieEng"], "C06": ["SMV.Src.TieEng"],
-             "C16": ["SMV.Src.TieEng"], "C09": ["SMV.Src.TieCheck", "SMV.Src.TieDecl"], "C01": ["SMV.Src.TieDecl"],
-             "C15": ["SMV.Src.TieDecl"], "C18": ["SMV.Src.TieDiagram"], "C10": ["SMV.Src.TieStore"],
+             "C16": ["SMV.Src.TieEng", "SMV.Src.TieFactory"], "C09": ["SMV.Src.TieCheck", "SMV.Src.TieDecl"], "C01": ["SMV.Src.TieDecl"],
+             "C15": ["SMV.Src.TieDecl", "SMV.Src.TieFactory"], "C18": ["SMV.Src.TieDiagram"], "C10": ["SMV.Src.TieStore"],
              "C11": ["SMV.Src.TieStore", "SMV.Src.TieEng"], "C12": ["SMV.Src.TieStore", "SMV.Src.TieReg"], "C02": ["SMV.Src.TieReg"], "C13": ["SMV.Src.TieStore", "SMV.Src.TieDecl"],
              "C17": ["SMV.Src.TieStore"]}
 
